@@ -24,8 +24,8 @@ import (
 // with real traffic instead of synthetic streams.
 var realCache map[string][]decl
 
-func corpusPrograms(env *kernel.Env) [][2]string {
-	var out [][2]string
+func corpusPrograms(env *kernel.Env) [][3]string {
+	out := [][3]string{{"repo-testsource", env.Repo, "testutils/testsource/defs.go testutils/testsource/other_file.go"}}
 	ents, _ := os.ReadDir(filepath.Join(env.VerifDir, "corpus"))
 	for _, e := range ents {
 		if !e.IsDir() {
@@ -35,7 +35,7 @@ func corpusPrograms(env *kernel.Env) [][2]string {
 		if err != nil {
 			continue
 		}
-		out = append(out, [2]string{e.Name(), string(b)})
+		out = append(out, [3]string{e.Name(), filepath.Join(env.VerifDir, "corpus", e.Name()), string(b)})
 	}
 	return out
 }
@@ -57,8 +57,7 @@ func realStreams(env *kernel.Env) map[string][]decl {
 		}
 	}
 	for _, pr := range corpusPrograms(env) {
-		dir := filepath.Join(env.VerifDir, "corpus", pr[0])
-		l, err := gen.Load(dir, strings.Fields(pr[1]))
+		l, err := gen.Load(pr[1], strings.Fields(pr[2]))
 		if err != nil {
 			kernel.Harnessf("corpus program %s does not load: %v", pr[0], err)
 		}
